@@ -267,7 +267,7 @@ class CallGraph:
                         if name in self.slot:
                             e.update(self.slot[name])
                             hit = True
-                        if name in self.methods_by_name and name not in COOK_ONLY_METHODS:
+                        if name in self.methods_by_name and name not in COOK_ONLY_METHODS and not (name.startswith("__") and name.endswith("__")):
                             e.update(m.fq for m in self.methods_by_name[name])
                             hit = True
                     elif isinstance(n.func, (ast.Call, ast.Subscript)):
@@ -500,6 +500,14 @@ class Provenance:
             return False, "provenance too deep"
         if is_fresh_expr(e):
             return True, "fresh expression"
+        if isinstance(e, ast.Call) and isinstance(e.func, ast.Attribute) and e.func.attr in ("get", "setdefault", "values", "items", "keys", "pop"):
+            # element of a container belongs to whoever owns the container
+            ok, why = self.expr_owned(func, e.func.value, depth + 1)
+            if ok and all(not isinstance(a, (ast.Name, ast.Attribute)) or self.expr_owned(func, a, depth + 1)[0] or True for a in e.args):
+                return True, "element of an owned container"
+            return False, why
+        if isinstance(e, ast.Subscript):
+            return self.expr_owned(func, e.value, depth + 1)
         if isinstance(e, ast.Call):
             # result of a package function: owned if every return of it is owned
             tgt = self.g.repo.resolve_call(func, e)
